@@ -500,6 +500,48 @@ func opCtorKac(a []string) (string, []Fail) {
 		c.defect(variant, true, err, haveVal, verr)
 		return c.line(), c.fails
 	}
+	// the private-key carrying twin: same acceptance, same public part, and its own Validate
+	{
+		var pk *keys_and_cert.PrivateKeysAndCert
+		var perr error
+		encPriv := stream(seed, "encpriv", 32) // any non-nil crypto.PrivateKey
+		var sigPriv interface{} = stream(seed, "sigpriv", 32)
+		if id.key.sk != nil {
+			sigPriv = id.key.sk
+		}
+		if p := try(func() { pk, perr = keys_and_cert.NewPrivateKeysAndCert(kc, cp, pad, sp, encPriv, sigPriv) }); p != "" {
+			c.panicked("private-"+variant, p)
+		} else if (perr == nil) != (err == nil) {
+			c.fail("C19", "twin:NewKeysAndCert/NewPrivateKeysAndCert", "acceptance differs for types (%d,%d): %v vs %v", sig, cpk, err, perr)
+		} else if perr == nil {
+			if verr := pk.Validate(); verr != nil && k.Validate() == nil {
+				c.fail("C14", "ctor-not-valid:PrivateKeysAndCert", "NewPrivateKeysAndCert succeeded but Validate fails: %v", verr)
+			}
+			b1, e1 := k.Bytes()
+			b2, e2 := pk.KeysAndCert.Bytes()
+			if (e1 == nil) != (e2 == nil) || !bytes.Equal(b1, b2) {
+				c.fail("C19", "twin:NewKeysAndCert/NewPrivateKeysAndCert", "public parts serialise differently for types (%d,%d)", sig, cpk)
+			}
+			if pk.PrivateKey() == nil || pk.SigningPrivateKey() == nil {
+				c.fail("C14", "ctor-not-valid:PrivateKeysAndCert", "a private key handed to the constructor is not returned by its accessor")
+			}
+		}
+		for _, nilWhich := range []int{0, 1} {
+			var e, s interface{} = encPriv, sigPriv
+			if nilWhich == 0 {
+				e = nil
+			} else {
+				s = nil
+			}
+			var x *keys_and_cert.PrivateKeysAndCert
+			var xerr error
+			if p := try(func() { x, xerr = keys_and_cert.NewPrivateKeysAndCert(kc, cp, pad, sp, e, s) }); p != "" {
+				c.panicked("private-nil-key", p)
+			} else if xerr == nil && x.Validate() != nil {
+				c.fail("C14", "defect-accepted-by-ctor:PrivateKeysAndCert:nil-private-key", "NewPrivateKeysAndCert accepts a nil private key that Validate rejects")
+			}
+		}
+	}
 	if err != nil {
 		c.note("err")
 		return c.line(), c.fails
